@@ -444,15 +444,18 @@ class C20(Check):
                     if n.data is None or n.data.name != cls.name or n.data.verbose_name != cls.verbose_name:
                         viol.append(('node-attributes', f'{n.id}: {n.data}'))
                     else:
-                        want = None
                         is_gen = bool(getattr(cls, '__generic_class__', None))
-                        if idx[sid].get('method_doc') and not is_gen:
-                            want = f'process of {sid}'
-                        elif idx[sid].get('doc'):
-                            # build_node() wraps process(): the method docstring of a generic base is not visible
-                            want = f'node {sid} docstring'
-                        if want is not None and n.data.doc != want:
-                            viol.append(('node-doc', f'{n.id}: {n.data.doc!r} != {want!r}'))
+                        want = []
+                        if idx[sid].get('method_doc'):
+                            want.append(f'process of {sid}')
+                        if idx[sid].get('doc') and (is_gen or not want):
+                            # build_node() wraps process(): for a generic node the documentation of the wrapped
+                            # method or of the class are both the declared documentation
+                            want.append(f'node {sid} docstring')
+                        if is_gen and not idx[sid].get('doc'):
+                            want = []  # nothing declared on the class itself: inherited text is not checked
+                        if want and n.data.doc not in want:
+                            viol.append(('node-doc', f'{n.id}: {n.data.doc!r} not in {want!r}'))
                     if bool(n.is_generic) != bool(idx[sid].get('generic') and idx[sid]['params']
                                                   and not idx[sid].get('additional_data')):
                         # is_generic is derived from the class name by the viewer ("generic" in the name)
